@@ -460,6 +460,7 @@ def choose_failure(rng: random.Random, spec: dict, escape_prob: float = 0.3, loo
     """copy of the spec with one injected failure:
     * a transformer raises on one of the tags it processes (`Transformer.run` catches it: the step ends FAILED and the
       failure travels as TerminationToken(FAILED)), or
+    * the `+k` body of a loop sub-network raises in a chosen iteration (after the earlier iterations succeeded), or
     * one job of a job pipeline returns a FAILED CommandOutput (`ExecuteStep.run` cancels its pending jobs), or
     * (mode "escape") a scatter step is fed a non-list value through an inserted `sum` transformer: `ScatterStep.run`
       does not catch the WorkflowDefinitionException, which reaches `StreamFlowExecutor._handle_exception` -> close()."""
@@ -485,6 +486,14 @@ def choose_failure(rng: random.Random, spec: dict, escape_prob: float = 0.3, loo
         nid, tag = rng.choice(jobs)
         spec = json.loads(json.dumps(spec))
         spec["nodes"][nid]["fail"] = {"job_tag": tag}
+        return spec
+    loops = [n for n in spec["nodes"] if n["kind"] == "loop" and den[n["ins"][0]]]
+    if loops and rng.random() < 0.3:
+        # the body of a loop raises in iteration `it` (for the instances that get that far)
+        n = rng.choice(loops)
+        iters = max((den[n["ins"][1]][t] - c + n["k"] - 1) // n["k"] for t, c in den[n["ins"][0]].items())
+        spec = json.loads(json.dumps(spec))
+        spec["nodes"][n["id"]]["fail"] = {"iter": rng.randrange(max(1, iters))}
         return spec
     cands = [(n["id"], tag) for n in spec["nodes"] if n["kind"] == "tf" for tag in den[n["ins"][0]]]
     # a failure upstream of a loop input dead-locks the LoopCombinatorStep (known finding of C04, every occurrence costs
@@ -564,7 +573,8 @@ async def build(context, spec: dict, workdir: str):
             ltr = RecoveryTranslator(workflow)
             loop_in = ltr.get_input_loop(name, {"counter": ports[n["ins"][0]], "limit": ports[n["ins"][1]]},
                                          'lambda x: x["counter"].value < x["limit"].value')
-            body = workflow.create_step(cls=GenTransformer, name=name + "/body", fn="add", k=n["k"], nin=1)
+            body = workflow.create_step(cls=GenTransformer, name=name + "/body", fn="add", k=n["k"], nin=1,
+                                        fail_iter=(n.get("fail") or {}).get("iter"))
             body.add_input_port("i0", loop_in["counter"])
             body_out = workflow.create_port()
             body.add_output_port("o0", body_out)
@@ -587,7 +597,10 @@ async def build(context, spec: dict, workdir: str):
             step.add_output_port("o0", ports[n["outs"][0]], EvalCommandOutputProcessor("o0", workflow, "primitive"))
             from sfv.rt import wfsteps
             step.command = wfsteps.GenCommand(step, k=n.get("k", 0), nin=len(n["ins"]),
-                                              fail_tag=(n.get("fail") or {}).get("job_tag"))
+                                              fail_tag=(n.get("fail") or {}).get("job_tag"), delay=n.get("delay", 0.0))
+            if n.get("allcores"):
+                # every job asks for all the cores of the deployment: jobs of different pipelines queue for resources
+                workflow.steps[posixpath.join(name, "__schedule__")].hardware_requirement = wfsteps.GenHardwareRequirement()
             node_steps[n["id"]] = sorted(set(workflow.steps) - before)
             continue
         else:
